@@ -3,10 +3,10 @@ package main
 // c01.go — C01: dialogue flow (control skeleton of the interpreter and of the tree builder).
 
 import (
-	"regexp"
 	"go/ast"
 	"go/token"
 	"go/types"
+	"regexp"
 	"sort"
 	"strings"
 
@@ -335,7 +335,7 @@ func c01R2(c *Ctx, m *runnerModel) {
 // ---------- R3 (shared with C07.R6 and C11.R2) ----------
 
 type jumpFacts struct {
-	findings []evtFinding
+	findings    []evtFinding
 	successSeqs map[string]bool
 	errSeqs     map[string]bool
 }
